@@ -332,4 +332,97 @@ theorem crossingDeleteDifferent_agree (ca cb ca' cb' : Child) (a b : HSt) (h : A
     · rw [← hcomm]; exact h2.protob
     · rw [← hcomm]; exact h2.paired
 
+/-! ### sessions with exchanges that cross -/
+
+/-- a step of a session: a conversation started by one end (`SessOp`), or two that cross -/
+inductive XOp where
+  | one (op : SessOp)
+  | crossChild (ca0 cb0 : Child) (i j : Option Nat)      -- both ends ask at once: creations, or rekeys of their i-th / j-th CHILD_SA
+  | crossDelete (i j : Nat)                                -- both ends delete at once: `a` its i-th, `b` its j-th CHILD_SA
+  deriving Repr
+
+def xStep (now fuel : Nat) (ab : HSt × HSt) : XOp → Option (HSt × HSt)
+  | .one op => sessStep now fuel ab op
+  | .crossChild ca0 cb0 i j =>
+    let rka := i.bind fun k => ab.1.me.ext.kids[k]?
+    let rkb := j.bind fun k => ab.2.me.ext.kids[k]?
+    if ¬ (ca0.proposal.proto = 2 ∨ ca0.proposal.proto = 3) ∨ ¬ (cb0.proposal.proto = 2 ∨ cb0.proposal.proto = 3) then none
+    else (crossingChildExchange now ca0 cb0 rka rkb ab.1 ab.2).bind fun x =>
+      if (x.1.me.ext.kids.map Child.inSpi).Nodup ∧ (x.2.me.ext.kids.map Child.inSpi).Nodup then some x else none
+  | .crossDelete i j =>
+    match ab.1.me.ext.kids[i]?, ab.2.me.ext.kids[j]? with
+    | some ca, some cb => crossingDeleteExchange ca cb ab.1 ab.2
+    | _, _ => some ab
+
+def xRun (now fuel : Nat) (ab : HSt × HSt) : List XOp → Option (HSt × HSt)
+  | [] => some ab
+  | op :: rest => match xStep now fuel ab op with
+    | some ab' => xRun now fuel ab' rest
+    | none => none
+
+theorem Agree.crossDelete {a b : HSt} (h : Agree a b) (ca cb : Child) (ha : ca ∈ a.me.ext.kids) (hb : cb ∈ b.me.ext.kids) :
+    ∃ a3 b3, crossingDeleteExchange ca cb a b = some (a3, b3) ∧ Agree a3 b3 := by
+  obtain ⟨ca', _, hca', hva⟩ := h.mirror.lookup h.nda ca ha
+  obtain ⟨cb', _, hcb', hvb⟩ := h.mirror.symm.lookup h.ndb cb hb
+  by_cases hsame : ca.inSpi = cb'.inSpi
+  · -- the same CHILD_SA from both ends
+    have hcc : cb' = ca := eq_of_nodup_map Child.inSpi _ h.nda hcb' ha hsame.symm
+    subst hcc
+    obtain ⟨a3, b3, he, ka, kb, sa, sb, _, _⟩ :=
+      crossingDeleteExchange_eq cb' cb a b h.sta h.stb h.mirror h.nda h.ndb ha hb (view_eq_peerView_symm hvb) (h.protoa _ ha)
+    refine ⟨a3, b3, he, sa, sb, ?_, ?_, ?_, ?_, ?_, ?_⟩
+    · rw [ka, kb]; exact h.mirror.remove (view_nodup_of_inSpi h.nda) _ _ ha hb (view_eq_peerView_symm hvb)
+    · rw [ka]; exact removeKid_nodup _ _ h.nda
+    · rw [kb]; exact removeKid_nodup _ _ h.ndb
+    · intro e he'; rw [ka] at he'; exact h.protoa e (mem_of_mem_removeKid he')
+    · intro e he'; rw [kb] at he'; exact h.protob e (mem_of_mem_removeKid he')
+    · rw [ka, kb]; exact h.paired.remove _ _
+  · obtain ⟨a3, b3, he, hag, _, _⟩ := crossingDeleteDifferent_agree ca cb ca' cb' a b h ha hb hca' hcb' hva hvb hsame
+    exact ⟨a3, b3, he, hag⟩
+
+theorem Agree.xStep {a b a' b' : HSt} (h : Agree a b) (now fuel : Nat) (op : XOp) (hx : xStep now fuel (a, b) op = some (a', b')) :
+    Agree a' b' := by
+  cases op with
+  | one op => exact Agree.sessRun now fuel [op] a b a' b' h (by simp only [PyIkev2.Impl.sessRun]; simp only [PyIkev2.Impl.xStep] at hx; rw [hx])
+  | crossChild ca0 cb0 i j =>
+    simp only [PyIkev2.Impl.xStep] at hx
+    split at hx
+    · cases hx
+    · rename_i hp
+      have hpa : ca0.proposal.proto = 2 ∨ ca0.proposal.proto = 3 := Decidable.byContradiction fun hh => hp (Or.inl hh)
+      have hpb : cb0.proposal.proto = 2 ∨ cb0.proposal.proto = 3 := Decidable.byContradiction fun hh => hp (Or.inr hh)
+      cases he : crossingChildExchange now ca0 cb0 (i.bind fun k => a.me.ext.kids[k]?) (j.bind fun k => b.me.ext.kids[k]?) a b with
+      | none => rw [he] at hx; cases hx
+      | some x =>
+        rw [he] at hx; simp only [Option.bind_some] at hx
+        split at hx
+        · rename_i hnd; cases hx
+          exact crossingChildExchange_agree now ca0 cb0 _ _ a b _ _ h hpa hpb he hnd.1 hnd.2
+        · cases hx
+  | crossDelete i j =>
+    simp only [PyIkev2.Impl.xStep] at hx
+    cases hi : a.me.ext.kids[i]? with
+    | none => simp only [hi] at hx; cases hx; exact h
+    | some ca =>
+      cases hj : b.me.ext.kids[j]? with
+      | none => simp only [hi, hj] at hx; cases hx; exact h
+      | some cb =>
+        simp only [hi, hj] at hx
+        obtain ⟨a3, b3, he, hag⟩ := h.crossDelete ca cb (List.mem_of_getElem? hi) (List.mem_of_getElem? hj)
+        rw [he] at hx; cases hx; exact hag
+
+/-- **sessions with crossing exchanges**: conversations started by one end (CHILD_SA creations, rekeys, deletions, IKE_SA rekeys) and pairs
+    of CHILD_SA requests or deletes that cross, in any order: if the session runs to the end, the ends agree at the end -/
+theorem Agree.xRun (now fuel : Nat) : ∀ (ops : List XOp) (a b a' b' : HSt), Agree a b →
+    xRun now fuel (a, b) ops = some (a', b') → Agree a' b'
+  | [], a, b, a', b', h, hx => by simp only [PyIkev2.Impl.xRun] at hx; cases hx; exact h
+  | op :: rest, a, b, a', b', h, hx => by
+    simp only [PyIkev2.Impl.xRun] at hx
+    cases hs : PyIkev2.Impl.xStep now fuel (a, b) op with
+    | none => rw [hs] at hx; cases hx
+    | some ab1 =>
+      rw [hs] at hx; dsimp only at hx
+      obtain ⟨a1, b1⟩ := ab1
+      exact Agree.xRun now fuel rest a1 b1 a' b' (h.xStep now fuel op hs) hx
+
 end PyIkev2.Impl
